@@ -38,12 +38,13 @@ Theorem C18_create_rejects_used_or_invalid_name : forall cf st p,
 Proof. exact create_rejected. Qed.
 Print Assumptions C18_create_rejects_used_or_invalid_name.
 
-(** ** Create.  (a) Under a valid unused name, content that validates, is well-typed and can be initialised
-    is installed: the client store becomes EXACTLY the proposal's client state, its consensus state at the
+(** ** Create.  (a) Under a valid unused name, content that validates, is well-typed, passes the ETH root check
+    ([roots_agree]: an ETH consensus state carries, as a 32-byte hash, the state root of its header; aa5560b) and can
+    be initialised is installed: the client store becomes EXACTLY the proposal's client state, its consensus state at the
     latest height (none for TSS) and the type's metadata ([fresh_store]). *)
 Theorem C18_create_ok : forall st p,
   valid_name (p_name p) = true -> p_validate p = true -> has_client st (p_name p) = false ->
-  store_of st (p_name p) = [] -> well_typed p -> installable (p_client p) ->
+  store_of st (p_name p) = [] -> well_typed p -> roots_agree head_cfg p = true -> installable (p_client p) ->
   step head_cfg st (Create p) = (0%nat, with_store st (p_name p) (fresh_store (now st) (p_client p) (p_cons p))).
 Proof. intros. apply step_ok_iff. apply create_succeeds; assumption. Qed.
 Print Assumptions C18_create_ok.
@@ -56,6 +57,25 @@ Theorem C18_create_spec : forall st p st',
   st' = with_store st (p_name p) (fresh_store (now st) (p_client p) (p_cons p)).
 Proof. intros st p st' W E. apply (create_spec head_cfg); [reflexivity | exact W | exact E]. Qed.
 Print Assumptions C18_create_spec.
+
+(** (c) EVERY successful create / upgrade / toggle passed the ETH root check: an ETH consensus state whose root is
+    not (as common.BytesToHash sees it) the state root of the proposed header is never installed. *)
+Theorem C18_proposal_roots_agree : forall st o st',
+  exec head_cfg st o = Ok st' ->
+  match o with
+  | Create p | Upgrade p | Toggle p =>
+      match p_client p with
+      | ClEth hd _ _ _ => hash32 (cs_root (p_cons p)) = hash32 (eh_root hd)
+      | _ => True
+      end
+  | _ => True
+  end.
+Proof.
+  intros st o st' E. pose proof (exec_roots_agree _ _ _ _ E) as R.
+  destruct o as [p|p|p| | |]; try exact I; destruct (p_client p) as [| |hd b t r|] eqn:Pc; try exact I;
+    exact (roots_agree_eth head_cfg hd b t r p eq_refl Pc R).
+Qed.
+Print Assumptions C18_proposal_roots_agree.
 
 Theorem C18_fresh_store_installed : forall tnow c cns, installable c -> installed tnow c cns (fresh_store tnow c cns).
 Proof. exact fresh_store_installed. Qed.
@@ -103,7 +123,7 @@ Print Assumptions C18_toggle_changes_type_and_initialises_new.
 Theorem C18_toggle_succeeds : forall st p old,
   valid_name (p_name p) = true -> p_validate p = true ->
   sget KClient (store_of st (p_name p)) = Some (VClient old) -> type_of old <> type_of (p_client p) ->
-  well_typed p -> installable (p_client p) ->
+  well_typed p -> roots_agree head_cfg p = true -> installable (p_client p) ->
   step head_cfg st (Toggle p) = (0%nat, with_store st (p_name p) (fresh_store (now st) (p_client p) (p_cons p))).
 Proof. intros. apply step_ok_iff. apply (toggle_succeeds head_cfg st p old); try reflexivity; assumption. Qed.
 Print Assumptions C18_toggle_succeeds.
@@ -121,10 +141,12 @@ Proof. intros. apply valid_update_succeeds; try assumption. reflexivity. Qed.
 Print Assumptions C18_valid_update_succeeds.
 
 (** ** ... and in every REACHABLE state no hypothesis on the store is left: along every history from the empty state
-    whose ETH content is consistent ([op_eth_ok]: an ETH proposal's consensus state carries the root of its own header,
-    ETH heights use revision 0) a valid update from the authorised account succeeds, for all four types.  Both
-    clauses of [op_eth_ok] are necessary (Refuted/C18_hyps.v: [C18_eth_foreign_root_refuted],
-    [C18_eth_revision_collision_refuted]; both reproduced on the real code by corpus cases). *)
+    whose ETH PROPOSALS use revision 0 ([op_eth_ok]) a valid update from the authorised account succeeds, for all four
+    types.  The code itself now enforces the rest of what the ETH pruning step needs: a proposal's consensus state
+    carries the root of its header (aa5560b, [C18_proposal_roots_agree]; before it the theorem needed this as a
+    hypothesis and Refuted/C18_hyps.v [C18_eth_foreign_root_refuted] shows why) and an update header carries the
+    client's revision number (1e12297).  The remaining clause is necessary: the root-main keys ignore the revision
+    number ([C18_eth_revision_collision_refuted], reproduced on the real code by a corpus case). *)
 Theorem C18_valid_update_succeeds_reachable : forall os t name c h signer,
   Forall op_eth_ok os ->
   let st := run head_cfg (empty_state t) os in
@@ -243,14 +265,14 @@ Print Assumptions C18_tm_delay_overflow_never_passes.
 Theorem C18_bsc_gate_after_delay : forall t fx prf cur e vals tr r s h k,
   get_cons BSC h s = Some k -> h_lt (eh_height cur) h = false -> fst h = fst (eh_height cur) ->
   lenN vals / 2 + 1 <= sub64 (snd (eh_height cur)) (snd h) ->
-  gate t fx prf (ClBsc cur e vals tr r) s h = root_gate fx k.
+  gate t fx prf (ClBsc cur e vals tr r) s h = root_gate_evm fx k.
 Proof. exact bsc_gate_after_delay. Qed.
 Print Assumptions C18_bsc_gate_after_delay.
 
 Theorem C18_eth_gate_after_delay : forall t fx prf cur bd tr r s h k,
   get_cons ETH h s = Some k -> h_lt (eh_height cur) h = false -> fst h = fst (eh_height cur) ->
   bd <= sub64 (snd (eh_height cur)) (snd h) ->
-  gate t fx prf (ClEth cur bd tr r) s h = root_gate fx k.
+  gate t fx prf (ClEth cur bd tr r) s h = root_gate_evm fx k.
 Proof. exact eth_gate_after_delay. Qed.
 Print Assumptions C18_eth_gate_after_delay.
 
